@@ -38,9 +38,9 @@ func Harness_C01_precert() {
 
 	n := 2 + vChoice("chain-len", 4) // 2..5 certificates, root included
 	preIssuer := vChoice("pre-issuer", 2) == 1
-	if preIssuer {
-		vAssume(n >= 3)
-	}
+	// with n == 2 and a pre-issuer the validated chain ends at the precert-signing certificate
+	// (it is itself a trust anchor of the log): no final issuer, so no entry, no SCT
+	noFinal := preIssuer && n == 2
 	envChain, envChainErr, envVCalls = nil, nil, 0
 	var ders [][]byte
 	for i := 0; i < n; i++ {
@@ -56,7 +56,9 @@ func Harness_C01_precert() {
 		envChain[1].ExtKeyUsage = [][]x509.ExtKeyUsage{
 			{x509.ExtKeyUsageCertificateTransparency},
 			{x509.ExtKeyUsageServerAuth, x509.ExtKeyUsageCertificateTransparency}}[vChoice("preissuer-ekus", 2)]
-		finalIssuer = envChain[2]
+		if !noFinal {
+			finalIssuer = envChain[2]
+		}
 	}
 	defanged := vBytes("defanged-tbs", 1+vChoice("tbs-len", 2))
 	x509.VerifCtlBuildTBS = func(tbs []byte, pi *x509.Certificate) ([]byte, error) {
@@ -75,6 +77,11 @@ func Harness_C01_precert() {
 	}
 	w := &envWriter{}
 	st, err := addPreChain(context.Background(), li, w, envPost(ders))
+	if noFinal {
+		vAssert(st != http.StatusOK && err != nil && seen == nil && len(sg.digests) == 0, "a chain ending at the precert-signing certificate: no entry is queued, nothing is signed, not 200")
+		vReach("preissuer")
+		return
+	}
 	vAssert(st == http.StatusOK && err == nil, "valid precertificate chain and healthy backend: 200")
 	if st != http.StatusOK {
 		return
